@@ -365,7 +365,8 @@ def can_reach_kind_table(ctx, rid="R3"):
             forced.update({l: b for l in sides[3]})
             recs = optabs.enum_cases(fd.body, forced, preds)
             got = {r["ret"] if isinstance(r["ret"], str) else "?" for r in recs}
-            if not recs or "?" in got:
+            wrong = {"T": "F", "F": "T"}[want]
+            if wrong not in got and (not recs or "?" in got):
                 und.append((names[a], names[b], sorted(got)))
             elif got != {want}:
                 bad.append("(%s -> %s): some path answers %s, documented is %s" % (names[a], names[b],
@@ -526,6 +527,8 @@ def overflow_depot(ctx):
 
 
 def rules(ctx):
+    from . import formulas
+    formulas.network_formulas(ctx, "R6")
     loader(ctx)
     getters(ctx)
     sorted_maps(ctx)
